@@ -21,7 +21,7 @@ pub struct Env {
 }
 
 pub fn true_attrs() -> Value {
-    json!({"match": true, "root": true, "pow": true, "cont": true, "mmr": true, "tau": "world", "td": true})
+    json!({"match": "ok", "root": "world", "pow": "world", "cont": "ok", "mmr": "ok", "tau": "world", "td": "ok"})
 }
 
 impl Env {
